@@ -8,6 +8,7 @@ same - which is exactly what the cross-environment oracles compare.
 
 from sim import exprs as X
 from sim import world as W
+from sim.machine import join_too_big
 from sim.seams import UUID_REGIMES
 
 COMMON = ["id", "u", "k", "kn", "x", "y", "g", "n", "s"]
@@ -1044,6 +1045,7 @@ class Generator:
                 and not (set(p.m.scope) & set(l.m.scope))
                 and set(p.real) & set(l.real)
                 and len(p.m.visible) + len(l.m.visible) <= 24
+                and not join_too_big(l, p)
             )
 
         r = self.pick_table(ok_right)
@@ -1200,7 +1202,7 @@ class Generator:
             if big:
                 l, r = rng.choice(big), s_
                 m.note("selfjoin_three_way")
-        if not (set(l.real) & set(r.real)):
+        if not (set(l.real) & set(r.real)) or join_too_big(l, r):
             return None
         # equality on a pair of corresponding visible int columns (same name on both sides)
         names = [
